@@ -4,6 +4,7 @@ mod c01;
 mod c05;
 mod c09;
 mod c16;
+mod stats;
 mod util;
 use std::io::{BufRead, Write};
 
@@ -23,6 +24,7 @@ fn main() {
             "C05" => c05::run(&case),
             "C09" => c09::run(&case),
             "C16" => c16::run(&case),
+            "C11" | "C12" | "C13" => stats::run(&case),
             p => panic!("unknown property {p}"),
         });
         let mut o = stdout.lock();
